@@ -74,6 +74,7 @@ func (e *Engine) Clean(d int) {
 		e.markPrunedBest(in, prodPruneDepth)
 		if d > 0 {
 			e.markPrunedBest(in, d)
+			in.M.HookPruned = true
 		}
 		after := e.snap(in)
 		in.Snap = after
@@ -186,6 +187,9 @@ func (e *Engine) Reload(d int, twin bool) {
 		return
 	}
 	nm := src.M.Clone()
+	if d > 0 {
+		nm.HookPruned = true
+	}
 	// what a Load may legitimately not restore / not keep in memory
 	P := nm.Tip.Height - depth
 	for _, n := range nm.Nodes {
@@ -199,7 +203,8 @@ func (e *Engine) Reload(d int, twin bool) {
 		for a := n; a != nil && !nm.OnBest(a); a = a.Parent {
 			low = a
 		}
-		if low.Height < P {
+		// a side branch is certainly restored only if its fork point is itself retained in memory
+		if low.Height <= P {
 			nm.MaybeDropped[n.Hash] = true
 		}
 	}
